@@ -10,7 +10,13 @@ Supported subset (anything else is a translation error, reported as such):
     the MPI rank / size obtained with RAPtor_MPI_Comm_rank / _size become the parameters `mpi_rank` / `mpi_size`);
   * `+ - * / %` (C truncation: `Int.tdiv` / `Int.tmod`), unary minus, comparisons, `&& || !`, int-as-condition;
   * `=`, `+=`, `-=`, `*=`, `++`, `--` on int variables, declarations with or without initialiser;
-  * `if / else` (a branch may return), `return`;
+  * `if / else` (a branch may return), `return`; `while` loops over integer state (each becomes a fuel-recursive helper
+    definition; the fuel is an explicit bound argument); reads `v[i]` of a `std::vector<int>` (the vector becomes a parameter
+    `v : Int -> Int`, in guard mode with its length); loop-body mode: the body of the single `for` loop of a function, its
+    input the dereferenced iterator, its result the value stored into the output vector;
+  * guard mode (`f_defined`): true iff on the executed path no `/` or `%` has a zero divisor, every `v[i]` has
+    `0 <= i < v_len`, and every loop ends within the fuel; `&&` / `||` are short-circuit: the guards of the right
+    operand apply only when it is evaluated;
   * statements without an integer effect are dropped and listed in the generated file: calls to printf and
     member calls, assignments to non-integer (pointer) members, `if`s whose branches contain only such statements.
 A function that returns a value becomes `def f (members…) (params…) : Int`; a constructor becomes a function
@@ -72,6 +78,12 @@ class Tr:
         self.fname = fname
         self.guard = guard          # guard mode: compute `ok` = no division by zero on the executed path
         self.divs = []              # divisors met while translating the current expression
+        self.idxs = []              # (vector, index) reads met while translating the current expression
+        self.vecs = []              # std::vector<int> objects read by index: parameters of type Int -> Int (+ their lengths in guard mode)
+        self.helpers = []           # loop functions emitted before the main definition
+        self.nloops = 0
+        self.inputs = []            # loop-body mode: variables assigned from an iterator dereference
+        self.result = None          # loop-body mode: the value stored into the output vector
         self.members_read = []      # members read before any assignment -> parameters
         self.assigned = []          # members assigned (constructor outputs), order of first assignment
         self.defined = set()        # lean names currently bound
@@ -113,16 +125,25 @@ class Tr:
             if not is_int(e):
                 raise Unsupported(f"{self.fname}: `{name}` has non-integer type {qual(e)}")
             return self.use(name, member)
+        if k == "CXXOperatorCallExpr" and strip(e["inner"][0]).get("referencedDecl", {}).get("name") == "operator[]":
+            obj = strip(e["inner"][1]); name = obj.get("name") if obj.get("kind") == "MemberExpr" else obj.get("referencedDecl", {}).get("name")
+            if not name:
+                raise Unsupported(f"{self.fname}: subscript of an unnamed object")
+            if name not in self.vecs:
+                self.vecs.append(name)
+            idx = self.expr(e["inner"][2])
+            self.divs.append(f"(decide (0 ≤ {idx}) && decide ({idx} < {name}_len))")
+            return f"({name} {idx})"
         if k == "UnaryOperator" and e["opcode"] == "-":
             return f"(-{self.expr(e['inner'][0])})"
         if k == "BinaryOperator" and e["opcode"] in "+-*/%" and len(e["opcode"]) == 1:
             a, b = self.expr(e["inner"][0]), self.expr(e["inner"][1])
             op = e["opcode"]
             if op == "/":
-                self.divs.append(b)
+                self.divs.append(f"({b} != 0)")
                 return f"(Int.tdiv {a} {b})"
             if op == "%":
-                self.divs.append(b)
+                self.divs.append(f"({b} != 0)")
                 return f"(Int.tmod {a} {b})"
             return f"({a} {op} {b})"
         raise Unsupported(f"{self.fname}: expression kind {k} {e.get('opcode', '')}")
@@ -140,10 +161,15 @@ class Tr:
             if op in ("==", "!=", "<", "<=", ">", ">="):
                 a, b = self.expr(e2["inner"][0]), self.expr(e2["inner"][1])
                 return f"({a} {({'==': '=', '!=': '≠', '<=': '≤', '>=': '≥'}).get(op, op)} {b})"
-            if op == "&&":
-                return f"({self.cond(e2['inner'][0])} ∧ {self.cond(e2['inner'][1])})"
-            if op == "||":
-                return f"({self.cond(e2['inner'][0])} ∨ {self.cond(e2['inner'][1])})"
+            if op in ("&&", "||"):
+                left = self.cond(e2['inner'][0])
+                n0 = len(self.divs)
+                right = self.cond(e2['inner'][1])
+                # short-circuit evaluation: the right operand (and whatever it divides by or indexes) is evaluated only
+                # when the left one is true (&&) / false (||)
+                for i in range(n0, len(self.divs)):
+                    self.divs[i] = f"({'!' if op == '&&' else ''}(decide {left}) || {self.divs[i]})"
+                return f"({left} {'∧' if op == '&&' else '∨'} {right})"
         if k == "UnaryOperator" and e2["opcode"] == "!":
             return f"(¬ {self.cond(e2['inner'][0])})"
         if is_int(e2):
@@ -176,12 +202,16 @@ class Tr:
         if k in ("BinaryOperator", "CompoundAssignOperator"):
             if k == "BinaryOperator" and s["opcode"] != "=":
                 return False
+            if k == "BinaryOperator" and self.is_vec_store(s):
+                return True
             return is_int(s["inner"][0]) and self.var_of(s["inner"][0])[0] is not None
         if k == "UnaryOperator" and s["opcode"] in ("++", "--"):
             return is_int(s["inner"][0]) and self.var_of(s["inner"][0])[0] is not None
         if k == "CallExpr":
             callee = strip(s["inner"][0])
             return callee.get("kind") == "DeclRefExpr" and callee["referencedDecl"]["name"] in MPI_BIND
+        if k == "WhileStmt":
+            return True
         return False
 
     def writes(self, stmts):
@@ -219,9 +249,59 @@ class Tr:
         out = ""
         if self.guard:
             for d in self.divs:
-                out += f"{ind}let ok : Bool := ok && ({d} != 0)\n"
-        self.divs = []
+                out += f"{ind}let ok : Bool := ok && {d}\n"
+        self.divs = []; self.idxs = []
         return out
+
+    def is_vec_store(self, s):
+        l = strip(s["inner"][0])
+        return l.get("kind") == "CXXOperatorCallExpr" and strip(l["inner"][0]).get("referencedDecl", {}).get("name") == "operator[]"
+
+    def is_iter_load(self, e):
+        e = strip(e)
+        return e.get("kind") == "CXXOperatorCallExpr" and strip(e["inner"][0]).get("referencedDecl", {}).get("name") == "operator*"
+
+    def while_loop(self, s, ind):
+        """`while (c) body` -> a fuel-recursive helper over the variables the body writes"""
+        import re as _re
+        body = self.flatten(s["inner"][1])
+        w = self.writes(body)
+        if not w or self.has_return(body):
+            raise Unsupported(f"{self.fname}: while loop without integer state or with a return")
+        before = sorted(self.defined - set(w) - {"ok"})
+        saved_idxs, saved_divs = self.idxs, self.divs
+        self.idxs, self.divs = [], []
+        c = self.cond(s["inner"][0])
+        cguard = self.flush("      ")
+        st = w[0] if len(w) == 1 else "(" + ", ".join(w) + ")"
+        stg = st if not self.guard else "(" + ", ".join(w + ["ok"]) + ")"
+        b = self.block(body, lambda: stg if self.guard else st, "        ")
+        self.idxs, self.divs = saved_idxs, saved_divs
+        text = cguard + c + b
+        used = [v for v in before if _re.search(r"(?<![A-Za-z0-9_])" + _re.escape(v) + r"(?![A-Za-z0-9_])", text)]
+        vecs = [v for v in self.vecs if _re.search(r"(?<![A-Za-z0-9_])" + _re.escape(v) + r"(?![A-Za-z0-9_])", text)]
+        self.nloops += 1
+        hname = f"{self.lean_name}_loop{self.nloops}"
+        sig = ""
+        if vecs:
+            sig += " (" + " ".join(vecs) + " : Int → Int)"
+            if self.guard:
+                sig += " (" + " ".join(v + "_len" for v in vecs) + " : Int)"
+        if used:
+            sig += " (" + " ".join(used) + " : Int)"
+        sty = ("Int" if len(w) == 1 else " × ".join(["Int"] * len(w))) if not self.guard else " × ".join(["Int"] * len(w) + ["Bool"])
+        args = " ".join(vecs + ([v + "_len" for v in vecs] if self.guard else []) + used)
+        pat = stg if self.guard else st
+        exhausted = pat if not self.guard else "(" + ", ".join(w + ["false"]) + ")   -- fuel exhausted: termination within the bound is part of definedness"
+        h = (f"/-- loop {self.nloops} of `{self.fname}` (fuel = bound on the number of iterations) -/\n"
+             f"def {hname}{sig} : Nat → {sty} → {sty}\n"
+             f"  | 0, {pat} => {exhausted}\n"
+             f"  | fuel+1, {pat} =>\n{cguard}      if {c} then\n        {hname} {args} fuel (\n{b}        )\n      else {pat}\n")
+        self.helpers.append(h)
+        call = f"{hname} {args} fuel {pat}"
+        for v in w:
+            self.note_assigned(v)
+        return f"{ind}let {pat} := {call}\n"
 
     def assign(self, name, member, rhs, ind):
         if member and name not in self.assigned:
@@ -258,6 +338,18 @@ class Tr:
                     self.mpi.append(p)
                 out += self.assign(v, False, p, ind)
                 continue
+            if k == "WhileStmt":
+                out += self.while_loop(s, ind)
+                continue
+            if k == "BinaryOperator" and self.is_vec_store(s):      # the value computed for the output vector: the result
+                val = self.expr(s["inner"][1])
+                return out + self.flush(ind) + f"{ind}{'ok' if self.guard else val}\n"
+            if k == "BinaryOperator" and self.is_iter_load(s["inner"][1]):   # `x = *it`: x is an input of the loop body
+                name, member = self.var_of(s["inner"][0])
+                if name not in self.inputs:
+                    self.inputs.append(name)
+                self.defined.add(name)
+                continue
             if k == "BinaryOperator":      # '='
                 name, member = self.var_of(s["inner"][0])
                 out += self.assign(name, member, self.expr(s["inner"][1]), ind)
@@ -268,7 +360,7 @@ class Tr:
                 cur = self.use(name, member)
                 rhs = self.expr(s["inner"][1])
                 if op in "/%":
-                    self.divs.append(rhs)
+                    self.divs.append(f"({rhs} != 0)")
                 val = f"(Int.tdiv {cur} {rhs})" if op == "/" else f"(Int.tmod {cur} {rhs})" if op == "%" else f"({cur} {op} {rhs})"
                 out += self.assign(name, member, val, ind)
                 continue
@@ -326,8 +418,9 @@ class Tr:
             return f"non-integer update ({s.get('opcode')}) of type {qual(s['inner'][0])}"
         return k or "?"
 
-    def function(self, decl, lean_name, member_names):
+    def function(self, decl, lean_name, member_names, loop_body=False):
         self.member_names = member_names
+        self.lean_name = lean_name
         params = [p["name"] for p in decl.get("inner", []) if p.get("kind") == "ParmVarDecl" and is_int(p)]
         skipped = [p["name"] for p in decl.get("inner", []) if p.get("kind") == "ParmVarDecl" and not is_int(p)]
         body = [c for c in decl.get("inner", []) if c.get("kind") == "CompoundStmt"]
@@ -336,6 +429,13 @@ class Tr:
         self.defined = set(params) | {"ok"}
         is_ctor = decl.get("kind") == "CXXConstructorDecl"
         stmts = self.flatten(body[0])
+        if loop_body:
+            # the prologue up to the (single) for loop, then the loop body once; the body's input is the dereferenced iterator
+            k_for = next((i for i, st in enumerate(stmts) if st.get("kind") == "ForStmt"), None)
+            if k_for is None:
+                raise Unsupported(f"{self.fname}: no for loop")
+            pro = [st for st in stmts[:k_for] if not (st.get("kind") == "VarDecl1" and not [c for c in st["decl"].get("inner", [])])]
+            stmts = pro + self.flatten(stmts[k_for]["inner"][-1])
         if self.guard:
             text = "  let ok : Bool := true\n" + self.block(stmts, lambda: "ok", "  ")
             ret = "Bool"
@@ -351,8 +451,16 @@ class Tr:
             sig += " (" + " ".join(mem) + " : Int)"
         if self.mpi:
             sig += " (" + " ".join(self.mpi) + " : Int)"
+        if self.vecs:
+            sig += " (" + " ".join(self.vecs) + " : Int → Int)"
+            if self.guard:
+                sig += " (" + " ".join(v + "_len" for v in self.vecs) + " : Int)"
+        if self.nloops:
+            sig += " (fuel : Nat)"
         if params:
             sig += " (" + " ".join(params) + " : Int)"
+        if self.inputs:
+            sig += " (" + " ".join(self.inputs) + " : Int)"
         doc = f"/-- generated from `{self.fname}`"
         if self.guard:
             doc += ": `true` iff no `/` or `%` on the executed path has a zero divisor (C++: undefined behaviour otherwise)"
@@ -363,7 +471,7 @@ class Tr:
         if self.dropped:
             doc += "; dropped (no integer effect): " + "; ".join(sorted(set(self.dropped)))
         doc += " -/"
-        return f"{doc}\ndef {lean_name}{sig} : {ret} :=\n{text}"
+        return "".join(h + "\n" for h in self.helpers) + f"{doc}\ndef {lean_name}{sig} : {ret} :=\n{text}"
 
 
 def find_decl(objs, cls_kind, name, nparams=None):
@@ -389,7 +497,8 @@ TARGETS = {
                       members=["global_num_rows", "global_num_cols", "local_num_rows", "local_num_cols", "first_local_row", "first_local_col",
                                "last_local_row", "last_local_col", "num_shared", "assumed_num_cols"],
                       funcs=[("CXXConstructorDecl", "Partition", 3, "ctor_default"), ("CXXConstructorDecl", "Partition", 5, "ctor_block"),
-                             ("CXXConstructorDecl", "Partition", 7, "ctor_explicit")]),
+                             ("CXXConstructorDecl", "Partition", 7, "ctor_explicit"),
+                             ("CXXMethodDecl", "form_col_to_proc", None, "owner_search", "loop_body")]),
 }
 
 
@@ -399,14 +508,15 @@ def generate(outdir):
     report = {}
     for cls, t in TARGETS.items():
         parts, rep = [], []
-        for kind, name, npar, lean_name in t["funcs"]:
+        for ent in t["funcs"]:
+            kind, name, npar, lean_name = ent[:4]; lb = len(ent) > 4
             try:
                 objs = ast_of(t["headers"], name)
                 d = find_decl(objs, kind, name, npar)
                 if d is None:
                     raise Unsupported(f"{cls}::{name}/{npar} not found in the AST")
-                parts.append(Tr(f"{cls}::{name}" + (f"/{npar}" if npar else "")).function(d, lean_name, t["members"]))
-                parts.append(Tr(f"{cls}::{name}" + (f"/{npar}" if npar else ""), guard=True).function(d, lean_name + "_defined", t["members"]))
+                parts.append(Tr(f"{cls}::{name}" + (f"/{npar}" if npar else "")).function(d, lean_name, t["members"], lb))
+                parts.append(Tr(f"{cls}::{name}" + (f"/{npar}" if npar else ""), guard=True).function(d, lean_name + "_defined", t["members"], lb))
                 rep.append((lean_name, True, ""))
             except Unsupported as ex:
                 parts.append(f"/- TRANSLATION ERROR for {cls}::{name}: {ex} -/")
